@@ -1,8 +1,79 @@
-(* C08 — property theorems only.  Each is closed by `exact <lemma>` and followed by Print Assumptions. *)
+(* C08 — property theorems only.  Each is closed by `exact <lemma>` and followed by Print Assumptions.
+
+   Reading guide: `render_rule c v r` is the model of ProtoRuleToIptablesRules (Model.v; `c_fixed c = true`
+   is the code with fixes/C08-scratch-bit.patch applied), `run`/`run_flat` evaluate rules as netfilter would
+   (Common/Ipt.v), `rule_matches` is the reference meaning of a rule (Common/PolicyRef.v), `ok_outcome`
+   is the property's oracle (Spec.v): it demands the rule's action when the rule matches and a fall-through
+   with all non-scratch mark bits unchanged when it does not. *)
 From Coq Require Import List NArith Bool Arith.
 From Verif.Common Require Import Packet PolicyRef Ipt.
-From Verif.C08 Require Import Model Spec ProofsSplit.
+From Verif.C08 Require Import Model Spec ProofsSplit ProofsFilter Proofs.
 Import ListNotations.
+Open Scope N_scope.
+
+(* MAIN THEOREM.  For every configuration with disjoint mark bits, either renderer flavour, every rule (in
+   the stated domain), every IP set contents and rate-limit oracle, every chain map and fuel, and every
+   packet of the IP version being rendered whose mark is arbitrary except that this rule's own verdict bit
+   is clear (scratch bits, the other verdict bits and all other bits arbitrary): evaluating the rendered
+   rules takes the rule's action iff the rule matches the packet, and otherwise falls through to the next
+   rule with every mark bit outside the two scratch bits unchanged. *)
+Theorem c08_rule_exact : forall c e r p fuel cs,
+  marks_ok c = true -> c_fixed c = true -> in_domain c r = true ->
+  wf_packet p -> entry_ok c (r_action r) p = true ->
+  ok_outcome c (e_sets e) r p (run (S fuel) cs e (render_rule c (pk_ver p) r) p) = true.
+Proof. exact rule_exact. Qed.
+Print Assumptions c08_rule_exact.
+
+(* the same for the chain-free evaluator the correspondence check applies to the real renderer's output:
+   the oracle accepts every run of the model *)
+Theorem c08_model_meets_spec : forall c e r p,
+  marks_ok c = true -> c_fixed c = true -> in_domain c r = true ->
+  wf_packet p -> entry_ok c (r_action r) p = true ->
+  ok_outcome c (e_sets e) r p (run_flat e (render_rule c (pk_ver p) r) p) = true.
+Proof. exact rule_exact_flat. Qed.
+Print Assumptions c08_model_meets_spec.
+
+(* the rendered rules never jump: they need no chain map and cannot run out of fuel *)
+Theorem c08_rendered_jump_free : forall c v r, jump_free (render_rule c v r).
+Proof. exact render_rule_jump_free. Qed.
+Print Assumptions c08_rendered_jump_free.
+
+(* THE CODE AS PINNED (c_fixed = false) violates the property: a rule with three positive match blocks
+   (two source named-port sets, two destination named-port sets, two source CIDRs) accepts a packet whose
+   source address is in neither CIDR, because the scratch bit set by the second block is still set when the
+   third block tests it. *)
+Theorem c08_rule_exact_refuted_unfixed :
+  exists c e r p,
+    c_fixed c = false /\ marks_ok c = true /\ in_domain c r = true /\ wf_packet p /\ entry_ok c (r_action r) p = true
+    /\ rule_matches (e_sets e) r p = false
+    /\ (exists p', run_flat e (render_rule c (pk_ver p) r) p = RReturn p' /\ mark_has (pk_mark p') (c_accept c) = true)
+    /\ ok_outcome c (e_sets e) r p (run_flat e (render_rule c (pk_ver p) r) p) = false.
+Proof. exact rule_exact_refuted_unfixed. Qed.
+Print Assumptions c08_rule_exact_refuted_unfixed.
+
+(* outside the domain: nftables' rendering of a negated ICMP type+code (known finding) *)
+Theorem c08_nft_not_icmp_type_code_refuted :
+  exists c e r p,
+    c_flavor c = Nft /\ marks_ok c = true /\ c_fixed c = true /\ in_domain c r = false /\ wf_packet p
+    /\ entry_ok c (r_action r) p = true
+    /\ rule_matches (e_sets e) r p = true
+    /\ ok_outcome c (e_sets e) r p (run_flat e (render_rule c (pk_ver p) r) p) = false.
+Proof. exact nft_not_icmp_refuted. Qed.
+Print Assumptions c08_nft_not_icmp_type_code_refuted.
+
+(* FilterRuleToIPVersion: for packets of the version rendered, the filtered rule means exactly what the
+   original means (and applies to that version); a dropped rule - other explicit version, a CIDR field with
+   no entry of this version, a negated catch-all CIDR - matches no packet of that version. *)
+Theorem c08_filter_version : forall s r p,
+  wf_packet p ->
+  match filter_rule (pk_ver p) r with
+  | Some r' => rule_matches s r' p = rule_matches s r p
+               /\ rule_version_ok r' (pk_ver p) = true
+               /\ r_action r' = r_action r /\ r_not_icmp r' = r_not_icmp r
+  | None => rule_matches s r p = false
+  end.
+Proof. exact filter_version. Qed.
+Print Assumptions c08_filter_version.
 
 (* SplitPortList: concatenating the splits gives back the port list (same order), no split is empty and
    none needs more than the 15 slots a multiport match has (single port = 1 slot, range = 2). *)
@@ -11,3 +82,9 @@ Theorem c08_split_ports_partition : forall ports,
   /\ Forall (fun sp => sp <> [] /\ (slots_sum sp <= 15)%nat) (split_ports ports).
 Proof. exact split_ports_partition. Qed.
 Print Assumptions c08_split_ports_partition.
+
+(* membership is preserved by the split (what the renderer relies on when it ORs / ANDs the pieces) *)
+Theorem c08_split_ports_membership : forall ports p,
+  existsb (fun l => in_ranges l p) (split_ports ports) = in_ranges ports p.
+Proof. exact in_ranges_split. Qed.
+Print Assumptions c08_split_ports_membership.
